@@ -83,6 +83,12 @@ def handle (words : List String) : Option String :=
     let d ← unhex doc
     let s := scanLines d
     pure (hexList s.rows ++ " toolong=" ++ (if s.tooLong then "1" else "0"))
+  | ["split", doc] => do
+    let d ← unhex doc
+    let s := scanLines d
+    -- each block as the splitter sends it: every row followed by LF
+    let blocks := (splitBlocks s.rows).map (fun rows => (rows.map (fun r => r ++ [lf])).flatten)
+    pure (hexList blocks ++ " toolong=" ++ (if s.tooLong then "1" else "0"))
   | ["blank", b] => do let b ← unhex b; pure (if isBlank b then "1" else "0")
   | ["parserows", rows] => do let rs ← unhexList rows; pure (parseRowsShow rs)
   | ["clean", p] => do let p ← unhex p; pure (hexOf (pathClean p))
